@@ -65,31 +65,42 @@ impl PatchList {
         };
 
         let parts: Vec<_> = encoded.split("\r\n").collect();
-        for i in 5..parts.len() - 2 {
-            let patch_parts: Vec<_> = parts[i].split('\t').collect();
+        // The first five lines are the header and the last two the closing boundary. This text
+        // comes from a server, so rows without the expected columns are skipped, not trusted.
+        for part in parts.iter().take(parts.len().saturating_sub(2)).skip(5) {
+            let patch_parts: Vec<_> = part.split('\t').collect();
+            let field = |i: usize| patch_parts.get(i).copied();
 
-            if patch_type == PatchListType::Boot {
-                patches.push(PatchEntry {
-                    url: patch_parts[5].parse().unwrap(),
-                    version: patch_parts[4].parse().unwrap(),
-                    hash_block_size: 0,
-                    length: patch_parts[0].parse().unwrap(),
-                    size_on_disk: patch_parts[1].parse().unwrap(),
-                    hashes: vec![],
-                    unknown_a: 0,
-                    unknown_b: 0,
-                });
+            let entry = if patch_type == PatchListType::Boot {
+                (|| {
+                    Some(PatchEntry {
+                        url: field(5)?.to_string(),
+                        version: field(4)?.to_string(),
+                        hash_block_size: 0,
+                        length: field(0)?.parse().ok()?,
+                        size_on_disk: field(1)?.parse().ok()?,
+                        hashes: vec![],
+                        unknown_a: 0,
+                        unknown_b: 0,
+                    })
+                })()
             } else {
-                patches.push(PatchEntry {
-                    url: patch_parts[8].parse().unwrap(),
-                    version: patch_parts[4].parse().unwrap(),
-                    hash_block_size: patch_parts[6].parse().unwrap(),
-                    length: patch_parts[0].parse().unwrap(),
-                    size_on_disk: patch_parts[1].parse().unwrap(),
-                    hashes: patch_parts[7].split(',').map(|x| x.to_string()).collect(),
-                    unknown_a: 0,
-                    unknown_b: 0,
-                });
+                (|| {
+                    Some(PatchEntry {
+                        url: field(8)?.to_string(),
+                        version: field(4)?.to_string(),
+                        hash_block_size: field(6)?.parse().ok()?,
+                        length: field(0)?.parse().ok()?,
+                        size_on_disk: field(1)?.parse().ok()?,
+                        hashes: field(7)?.split(',').map(|x| x.to_string()).collect(),
+                        unknown_a: 0,
+                        unknown_b: 0,
+                    })
+                })()
+            };
+
+            if let Some(entry) = entry {
+                patches.push(entry);
             }
         }
 
